@@ -284,5 +284,343 @@ theorem b64decode_symbols (e : List Char) (bs : List UInt8) (h : b64decode e = s
   rw [← b64encode_decode e bs h]
   exact b64encode_symbols bs
 
+/-! ## decimals -/
+
+section Decimals
+open Dec
+
+
+theorem isDig_iff (c : Char) : Time.isDig c = true ↔ 48 ≤ c.toNat ∧ c.toNat ≤ 57 := by
+  unfold Time.isDig
+  simp only [decide_eq_true_eq, char_le_iff]
+  have e1 : ('0' : Char).toNat = 48 := rfl
+  have e2 : ('9' : Char).toNat = 57 := rfl
+  rw [e1, e2]
+
+theorem isDig_of_isDigit (c : Char) (h : c.isDigit = true) : Time.isDig c = true := by
+  rw [isDig_iff]
+  unfold Char.isDigit at h
+  simp only [Bool.and_eq_true, decide_eq_true_eq] at h
+  have h1 : (48 : UInt32) ≤ c.val := h.1
+  have h2 : c.val ≤ (57 : UInt32) := h.2
+  rw [UInt32.le_iff_toNat_le] at h1 h2
+  exact ⟨h1, h2⟩
+
+theorem digitsVal_append (a b : List Char) :
+    digitsVal (a ++ b) = b.foldl (fun acc c => acc * 10 + digitVal c) (digitsVal a) := by
+  unfold digitsVal
+  rw [List.foldl_append]
+
+theorem foldl_digits_ge (b : List Char) (acc : Nat) : acc ≤ b.foldl (fun acc c => acc * 10 + digitVal c) acc := by
+  induction b generalizing acc with
+  | nil => exact Nat.le_refl _
+  | cons c b ih =>
+    simp only [List.foldl_cons]
+    exact Nat.le_trans (by omega) (ih _)
+
+theorem digitsVal_le_append (a b : List Char) : digitsVal a ≤ digitsVal (a ++ b) := by
+  rw [digitsVal_append]
+  exact foldl_digits_ge b _
+
+theorem scanDec_fp (neg : Bool) (ip : List Char) (hip : digitsVal ip ≤ max96) :
+    ∀ (ds fp : List Char), (∀ c ∈ ds, Time.isDig c = true) → fp.length + ds.length ≤ 28 →
+      digitsVal (ip ++ (fp ++ ds)) ≤ max96 →
+      scanDec neg true true ip fp ds =
+        .ok ⟨neg && digitsVal (ip ++ (fp ++ ds)) != 0, digitsVal (ip ++ (fp ++ ds)), (fp ++ ds).length⟩ := by
+  intro ds
+  induction ds with
+  | nil =>
+    intro fp _ hlen hv
+    simp only [List.append_nil] at hv ⊢
+    rw [scanDec, if_neg (by omega), if_neg (by simp only [List.length_nil, Nat.add_zero] at hlen; omega)]
+    simp
+  | cons c ds ih =>
+    intro fp hd hlen hv
+    have hpre : digitsVal (ip ++ fp) ≤ max96 := by
+      have := digitsVal_le_append (ip ++ fp) (c :: ds)
+      rw [List.append_assoc] at this
+      omega
+    simp only [List.length_cons] at hlen
+    rw [scanDec, if_neg (by omega), if_neg (by omega), if_pos (hd c List.mem_cons_self)]
+    simp only [if_true]
+    have := ih (fp ++ [c]) (fun x hx => hd x (List.mem_cons_of_mem _ hx))
+      (by simp only [List.length_append, List.length_cons, List.length_nil]; omega)
+      (by simpa [List.append_assoc] using hv)
+    simpa [List.append_assoc] using this
+
+theorem scanDec_ip (neg : Bool) (rest : List Char) :
+    ∀ (ds ip : List Char) (seen : Bool), (∀ c ∈ ds, Time.isDig c = true) → digitsVal (ip ++ ds) ≤ max96 →
+      scanDec neg seen false ip [] (ds ++ rest) = scanDec neg (seen || !ds.isEmpty) false (ip ++ ds) [] rest := by
+  intro ds
+  induction ds with
+  | nil => intro ip seen _ _; simp
+  | cons c ds ih =>
+    intro ip seen hd hv
+    have hpre : digitsVal ip ≤ max96 := Nat.le_trans (digitsVal_le_append ip (c :: ds)) hv
+    simp only [List.cons_append]
+    rw [scanDec, if_neg (by omega), if_neg (by simp only [List.length_nil, List.append_nil]; omega),
+      if_pos (hd c List.mem_cons_self)]
+    simp only [Bool.false_eq_true, if_false]
+    rw [ih (ip ++ [c]) true (fun x hx => hd x (List.mem_cons_of_mem _ hx)) (by simpa [List.append_assoc] using hv)]
+    simp [List.append_assoc]
+
+theorem digitsVal_eq (l : List Char) : digitsVal l = Nat.ofDigitChars 10 l 0 := by
+  unfold digitsVal Nat.ofDigitChars digitVal
+  congr 1; funext acc c; rw [Nat.mul_comm]
+
+theorem digitsVal_zeros_append (l : List Char) (n : Nat) :
+    digitsVal (List.replicate n '0' ++ l) = digitsVal l := by
+  rw [digitsVal_eq, digitsVal_eq, Nat.ofDigitChars_append, Nat.ofDigitChars_replicate_zero]; simp
+
+theorem digitsVal_toDigits (n : Nat) : digitsVal (Nat.toDigits 10 n) = n := by
+  rw [digitsVal_eq]; exact Nat.ofDigitChars_ten_toDigits
+
+/-- the digit string `Display` starts from -/
+def dispDigits (x : Dec) : List Char := padLeft (x.scale + 1) (Nat.toDigits 10 x.coeff)
+
+theorem dispDigits_val (x : Dec) : digitsVal (dispDigits x) = x.coeff := by
+  unfold dispDigits padLeft; rw [digitsVal_zeros_append, digitsVal_toDigits]
+
+theorem dispDigits_isDig (x : Dec) : ∀ c ∈ dispDigits x, Time.isDig c = true := by
+  intro c hc
+  unfold dispDigits padLeft at hc
+  rcases List.mem_append.mp hc with h | h
+  · rw [(List.mem_replicate.mp h).2]; decide
+  · exact isDig_of_isDigit c (Nat.isDigit_of_mem_toDigits (by decide) (by decide) h)
+
+theorem dispDigits_length (x : Dec) : x.scale + 1 ≤ (dispDigits x).length := by
+  unfold dispDigits padLeft
+  rw [List.length_append, List.length_replicate]; omega
+
+theorem toChars_eq (x : Dec) :
+    x.toChars = (if x.neg then ['-'] else []) ++ (dispDigits x).take ((dispDigits x).length - x.scale) ++
+      (if x.scale = 0 then [] else '.' :: (dispDigits x).drop ((dispDigits x).length - x.scale)) := rfl
+
+theorem isDig_ne (c : Char) (h : Time.isDig c = true) : c ≠ '-' ∧ c ≠ '+' ∧ c ≠ '.' ∧ c ≠ '_' := by
+  rw [isDig_iff] at h
+  refine ⟨?_, ?_, ?_, ?_⟩ <;> (intro e; subst e; revert h; decide)
+
+/-- the `Display` text of a normal decimal (after the sign) scans back to it -/
+theorem scanDec_disp (x : Dec) (h : DecNormal x) :
+    scanDec x.neg false false [] [] ((dispDigits x).take ((dispDigits x).length - x.scale) ++
+      (if x.scale = 0 then [] else '.' :: (dispDigits x).drop ((dispDigits x).length - x.scale))) = .ok x := by
+  obtain ⟨⟨hs, hc⟩, hz⟩ := h
+  have hlen := dispDigits_length x
+  have hdig := dispDigits_isDig x
+  have hval := dispDigits_val x
+  generalize hds : dispDigits x = ds at hlen hdig hval
+  have hipd : ∀ c ∈ ds.take (ds.length - x.scale), Time.isDig c = true := fun c hc => hdig c (List.mem_of_mem_take hc)
+  have hfpd : ∀ c ∈ ds.drop (ds.length - x.scale), Time.isDig c = true := fun c hc => hdig c (List.mem_of_mem_drop hc)
+  have hipv : digitsVal (ds.take (ds.length - x.scale)) ≤ max96 := by
+    have := digitsVal_le_append (ds.take (ds.length - x.scale)) (ds.drop (ds.length - x.scale))
+    rw [List.take_append_drop, hval] at this
+    omega
+  have hne : (ds.take (ds.length - x.scale)).isEmpty = false := by
+    cases hx : ds.take (ds.length - x.scale) with
+    | nil =>
+      have := congrArg List.length hx
+      rw [List.length_take] at this
+      simp at this; omega
+    | cons _ _ => rfl
+  have hfl : (ds.drop (ds.length - x.scale)).length = x.scale := by rw [List.length_drop]; omega
+  rw [scanDec_ip x.neg _ _ [] false hipd (by simpa using hipv)]
+  simp only [List.nil_append, hne, Bool.not_false, Bool.or_true]
+  have hnz : (x.neg && x.coeff != 0) = x.neg := by
+    by_cases h0 : x.coeff = 0
+    · simp [h0, hz h0]
+    · simp [h0]
+  by_cases h0 : x.scale = 0
+  · have e : ds.take (ds.length - x.scale) = ds := by rw [h0]; simp
+    rw [if_pos h0, e]
+    rw [scanDec, if_neg (by omega), if_neg (by simp only [List.length_nil, List.append_nil]; omega)]
+    simp only [List.append_nil, List.length_nil, if_true]
+    rw [hval, hnz, ← h0]
+  · rw [if_neg h0]
+    rw [scanDec, if_neg (by omega), if_neg (by simp only [List.length_nil, List.append_nil]; omega), if_neg (by decide)]
+    simp only [and_self, if_true]
+    rw [scanDec_fp x.neg _ hipv _ [] hfpd (by simp only [List.length_nil, hfl]; omega)
+      (by simp only [List.nil_append, List.take_append_drop, hval]; omega)]
+    simp only [List.nil_append, List.take_append_drop, hval, hfl, hnz]
+
+theorem decFromStr_toChars (x : Dec) (h : DecNormal x) : decFromStr x.toChars = .ok x := by
+  have hlen := dispDigits_length x
+  have hdig := dispDigits_isDig x
+  have key := scanDec_disp x h
+  rw [toChars_eq]
+  cases hn : x.neg with
+  | true =>
+    rw [hn] at key
+    simp only [if_true, List.cons_append, List.nil_append, decFromStr]
+    exact key
+  | false =>
+    rw [hn] at key
+    simp only [Bool.false_eq_true, if_false, List.nil_append]
+    -- the first character is a digit
+    cases hx : (dispDigits x).take ((dispDigits x).length - x.scale) with
+    | nil =>
+      have := congrArg List.length hx
+      rw [List.length_take] at this
+      simp at this; omega
+    | cons c t =>
+      have hc : Time.isDig c = true := hdig c (List.mem_of_mem_take (by rw [hx]; exact List.mem_cons_self))
+      obtain ⟨h1, h2, _, _⟩ := isDig_ne c hc
+      rw [hx] at key
+      simp only [List.cons_append, decFromStr, if_neg h1, if_neg h2]
+      exact key
+
+theorem decOfText_toChars (x : Dec) (h : DecNormal x) : decOfText x.toChars = .ok x := by
+  unfold decOfText
+  rw [decFromStr_toChars x h]
+
+
+
+theorem scanDec_normal (neg : Bool) : ∀ (cs : List Char) (seen point : Bool) (ip fp : List Char) (d : Dec),
+    scanDec neg seen point ip fp cs = .ok d → DecNormal d := by
+  intro cs
+  induction cs with
+  | nil =>
+    intro seen point ip fp d h
+    rw [scanDec] at h
+    split at h
+    · cases h
+    · split at h
+      · cases h
+      · rename_i h2
+        split at h
+        · cases h
+          refine ⟨⟨?_, ?_⟩, ?_⟩
+          · show fp.length ≤ 28
+            omega
+          · show digitsVal (ip ++ fp) ≤ max96
+            omega
+          · intro h0
+            show (neg && digitsVal (ip ++ fp) != 0) = false
+            have h0' : digitsVal (ip ++ fp) = 0 := h0
+            simp [h0']
+        · cases h
+  | cons c cs ih =>
+    intro seen point ip fp d h
+    rw [scanDec] at h
+    split at h
+    · cases h
+    · split at h
+      · cases h
+      · split at h
+        · split at h
+          · exact ih _ _ _ _ _ h
+          · exact ih _ _ _ _ _ h
+        · split at h
+          · exact ih _ _ _ _ _ h
+          · split at h
+            · exact ih _ _ _ _ _ h
+            · cases h
+
+theorem decFromStr_normal (cs : List Char) (d : Dec) (h : decFromStr cs = .ok d) : DecNormal d := by
+  unfold decFromStr at h
+  split at h
+  · cases h
+  · split at h
+    · exact scanDec_normal _ _ _ _ _ _ _ h
+    · split at h
+      · exact scanDec_normal _ _ _ _ _ _ _ h
+      · exact scanDec_normal _ _ _ _ _ _ _ h
+
+theorem normalize_go_spec : ∀ (fuel c s : Nat), c ≠ 0 →
+    (Dec.normalize.go fuel c s).1 ≠ 0 ∧ (Dec.normalize.go fuel c s).1 ≤ c ∧ (Dec.normalize.go fuel c s).2 ≤ s := by
+  intro fuel
+  induction fuel with
+  | zero => intro c s h; simp [Dec.normalize.go, h]
+  | succ n ih =>
+    intro c s h
+    rw [Dec.normalize.go]
+    split
+    · rename_i hc
+      have hne : c / 10 ≠ 0 := by omega
+      obtain ⟨h1, h2, h3⟩ := ih (c / 10) (s - 1) hne
+      exact ⟨h1, by omega, by omega⟩
+    · exact ⟨h, Nat.le_refl _, Nat.le_refl _⟩
+
+theorem normalize_normal (r : Dec) (h : r.WF) : DecNormal r.normalize := by
+  unfold Dec.normalize
+  split
+  · exact ⟨⟨by decide, by decide⟩, fun _ => rfl⟩
+  · rename_i h0
+    obtain ⟨h1, h2, h3⟩ := normalize_go_spec r.scale r.coeff r.scale h0
+    obtain ⟨hs, hc⟩ := h
+    refine ⟨⟨?_, ?_⟩, ?_⟩
+    · show (Dec.normalize.go r.scale r.coeff r.scale).2 ≤ 28
+      omega
+    · show (Dec.normalize.go r.scale r.coeff r.scale).1 ≤ max96
+      omega
+    · intro hz
+      exact absurd hz h1
+
+theorem mul_wf (a b r : Dec) (h : Dec.mul a b = some r) : r.WF := by
+  unfold Dec.mul at h
+  split at h
+  · cases h; exact ⟨by decide, by decide⟩
+  · split at h
+    · rename_i hg
+      cases h
+      exact ⟨hg.1, hg.2⟩
+    · cases h
+
+theorem applyExp_normal (ret : Dec) (ex : List Char) (d : Dec) (hr : DecNormal ret) (h : applyExp ret ex = .ok d) :
+    DecNormal d := by
+  obtain ⟨⟨hs, hc⟩, hz⟩ := hr
+  unfold applyExp at h
+  split at h
+  · split at h
+    · cases h
+    · split at h
+      · cases h
+      · split at h
+        · cases h
+        · cases h
+          exact ⟨⟨by show ret.scale + _ ≤ 28; omega, hc⟩, hz⟩
+  · split at h
+    · cases h
+    · split at h
+      · cases h
+        exact ⟨⟨by show ret.scale - _ ≤ 28; omega, hc⟩, hz⟩
+      · split at h
+        · cases h
+        · split at h
+          · rename_i r hm
+            cases h
+            exact normalize_normal r (mul_wf _ _ _ hm)
+          · exact absurd h (Outcome.inexact_ne_ok _ _)
+
+theorem decFromSci_normal (cs : List Char) (d : Dec) (h : decFromSci cs = .ok d) : DecNormal d := by
+  unfold decFromSci at h
+  split at h
+  · cases h
+  · rename_i base ex _
+    obtain ⟨ret, hret, hd⟩ := (Outcome.bind_ok _ _ _).mp h
+    exact applyExp_normal ret ex d (decFromStr_normal _ _ hret) hd
+
+/-- whatever `decOfText` reads is a normal decimal -/
+theorem decOfText_normal (cs : List Char) (d : Dec) (h : decOfText cs = .ok d) : DecNormal d := by
+  unfold decOfText at h
+  split at h
+  · rename_i d' hd
+    cases h
+    exact decFromStr_normal _ _ hd
+  · exact decFromSci_normal _ _ h
+  · cases h
+
+theorem decField_normal (v : JVal) (d : Dec) (h : decField v = .ok d) : DecNormal d := by
+  unfold decField at h
+  split at h
+  · exact decOfText_normal _ _ h
+  · exact decOfText_normal _ _ h
+  · split at h
+    · exact decOfText_normal _ _ h
+    · cases h
+  · cases h
+
+
+end Decimals
+
 end FilterDef
 end Tackler
